@@ -8,7 +8,7 @@
    C11_back: MarkerExpression.from_specifier(name, s), for every canonical s whose
    remembered clauses are genuine, returns AnyMarker only for the universal set,
    EmptyMarker only for the empty one, and otherwise None or an atom that evaluates true
-   exactly on the final versions s admits - including the python_full_version zero
+   exactly on the final versions s accepts - including the python_full_version zero
    padding (C11_padding: padding the release segment never changes a comparison).
    Outside: `in` / `not in` lists (string containment, known finding pv-in-substring) and
    the exclusion tilde_safe (known finding tilde-max-post), both decided by the oracle. *)
@@ -54,7 +54,7 @@ Proof. exact (vmerge_same_sound kind name c1 c2 res). Qed.
 (* the python_version / python_full_version pair: _normalize_python_version_specifier and _merge_python_version_single_markers.
    pv_operand_ok: the python_version operand is a plain release whose meaningful part has one or two segments (anything else is the
    recorded finding pv-long-operand).  On every consistent interpreter (python_version = X.Y, python_full_version = X.Y.Z) the
-   normalised specifier admits X.Y.Z exactly when the python_version atom holds, and whatever the merge returns evaluates as the
+   normalised specifier accepts X.Y.Z exactly when the python_version atom holds, and whatever the merge returns evaluates as the
    conjunction / disjunction of the two atoms. *)
 Theorem C11_normalize c : pv_operand_ok c ->
   exists ns, normalize_pv c = Ret ns /\ canon ns /\ forall X Y Z, clause_sem c (pvv X Y) = mem (vcut (pfv X Y Z)) ns.
